@@ -73,7 +73,7 @@ theorem C02_bounded_schemas :
     bounded (output true) = true ∧ bounded (output false) = true ∧ bounded header = true ∧
     bounded confirm = true ∧ bounded inactiveArbitrators = true ∧ bounded dposIllegalBlocks = true ∧
     bounded invMsg = true ∧ bounded getBlocksMsg = true ∧ bounded addrMsg = true ∧
-    bounded merkleBlockMsg = true := by decide
+    bounded merkleBlockMsg = true ∧ bounded blockRow = true := by decide
 
 /-- `K` and `C` of the stand-alone schemas -/
 theorem C02_constants :
@@ -266,5 +266,45 @@ theorem C02_gen_msg_makes :
        "p2p/msg.Inv: make([]InvVect, count)", "p2p/msg.Inv: make([]*InvVect, 0, count)",
        "p2p/msg.MerkleBlock: make([]common.Uint256, numHashes)",
        "p2p/msg.MerkleBlock: make([]*common.Uint256, 0, numHashes)"] := by decide
+
+/-! ## round 4: wrapping size checks, on-disk rows -/
+
+/-- A count check computed as `overhead + count * size > max` in 64-bit unsigned arithmetic (what Go's
+    `uint64` does) is NOT a bound on the count: for the `addr` message's numbers (8 + count·42 against a
+    42008-byte maximum) the count `⌈2^64 / 42⌉` passes it.  The check the decoder has to make is on the
+    count itself (`count > MaxAddrPerMsg`, pinned by `C02_gen_p2p_limits`); the streams carry the
+    wrapping counts for every element size 1…128 (`wrapAttack`). -/
+theorem C02_wrapping_check_unsound :
+    ¬ ∀ count : Nat, count < 2 ^ 64 → (8 + count * 42) % 2 ^ 64 ≤ 42008 → count ≤ 1000 := by
+  intro h
+  have := h 439208192231179801 (by decide) (by decide)
+  omega
+
+/-- whereas without wrap-around the same check does bound the count -/
+theorem C02_unwrapped_check_sound (count : Nat) (h : 8 + count * 42 ≤ 42008) : count ≤ 1000 := by
+  omega
+
+/-- every wrapping count is far above any limit, so the modelled reader (limit on the count itself)
+    refuses it before anything is allocated: a count `c ≥ ⌈2^w / size⌉` with `size ≤ 128` is at least `2^(w-7)` -/
+theorem C02_wrapping_counts_large (w size c : Nat) (hs : 0 < size) (hs' : size ≤ 128) (hw : 7 ≤ w)
+    (hc : 2 ^ w ≤ c * size) : 2 ^ (w - 7) ≤ c := by
+  have h1 : c * size ≤ c * 128 := Nat.mul_le_mul_left c hs'
+  have h2 : (2:Nat) ^ w = 2 ^ (w - 7) * 128 := by
+    have : w = (w - 7) + 7 := by omega
+    conv => lhs; rw [this, Nat.pow_add]
+  omega
+
+/-- Regenerated: the decoder of on-disk block index rows (`blockchain.DeserializeBlockRow`) touches its
+    byte-slice argument only through a `bytes.Reader` — no direct indexing or slicing of the row, so a
+    short (torn) row is answered with an error, as the schema `blockRow` (84-byte header, status byte) says. -/
+theorem C02_gen_disk_rows :
+    Gen.C02.rawIndexing = [("blockchain.DeserializeBlockRow", [])] := by decide
+
+/-- a block row is accepted only if all 85 bytes are there, and nothing is allocated beyond the fixed fields -/
+theorem C02_blockrow_consumes (bs : Bytes) (v : Val) (rest : Bytes)
+    (h : (decodeA blockRow bs).res = some (v, rest)) : rest.length + 85 ≤ bs.length := by
+  have := decode_minSize blockRow bs v rest (by decide) h
+  have e : minSize blockRow = 85 := by decide
+  omega
 
 end ElaVerif.C02
